@@ -437,7 +437,17 @@ impl StreamSocket {
                     let segment = self.buf.swap_remove(&self.recv_seq).unwrap();
                     permit.send(segment)
                 }
-                Err(Closed(())) => return Err(Protocol::Tcp(Segment::Rst)),
+                Err(Closed(())) => {
+                    // The local read half is gone (the write half may still be
+                    // in use). Data that can no longer be read is answered
+                    // with a RST; the peer's FIN carries no data, so nothing
+                    // is lost: it is consumed silently, like a FIN for a
+                    // stream that is already fully closed.
+                    match self.buf.swap_remove(&self.recv_seq) {
+                        Some(SequencedSegment::Fin) => {}
+                        _ => return Err(Protocol::Tcp(Segment::Rst)),
+                    }
+                }
                 Err(Full(())) => {
                     self.recv_seq -= 1;
                     break;
